@@ -9,7 +9,7 @@ substream events name the right peer, only existing futures complete, `Canceled`
 cancel channel fired, a response only if the responder wrote it on that substream).
 Ghost history components of the state: `issued` (requests handed to the protocol), `opened`
 (substream id ↦ request, one entry per successful `open_substream`), `sentOn` (substreams on which a
-request future was started), `wire` (what the responder wrote on a substream), `log` (events).
+request future was started), `written` (the payload that future writes), `wire` (what the responder wrote on a substream), `log` (events).
 -/
 namespace Litep2pVerif.Props.C13
 open Litep2pVerif Litep2pVerif.ReqResp
@@ -40,8 +40,8 @@ theorem cancel_effect (s : State) (rid : Rid) :
 /-- Non-vacuity: a cancel before the substream is open is ignored, after it it takes effect. -/
 example :
     let s0 := [Input.connectionEstablished 1 (fun _ => .error .closed),
-      .send 1 ⟨3, 0⟩ .reject (.ok ()) (.ok 0)].foldl step (init none)
-    let s1 := step s0 (.outboundSubstream 1 0)
+      .send 1 ⟨⟨3, 0⟩, none⟩ .reject (.ok ()) (.ok 0)].foldl step (init none)
+    let s1 := step s0 (.outboundSubstream 1 0 none)
     (step s0 (.cancel 0)).cancelSent = [] ∧ (step s1 (.cancel 0)).cancelSent = [0] := by decide
 
 /-- **At most one terminal event.** In every reachable state, every request id has at most one
@@ -52,8 +52,8 @@ theorem at_most_one_terminal (m : Option Nat) (s : State) (h : Reach m s) (r : R
 
 /-- Non-vacuity: a request answered by the responder, then the connection closes: one event. -/
 example :
-    let s := [Input.connectionEstablished 1 (fun _ => .error .closed), .send 1 ⟨3, 0⟩ .reject (.ok ()) (.ok 0),
-      .outboundSubstream 1 0, .responderWrites 0 ⟨2, 9⟩, .futureDone ⟨1, 0, 0⟩ (.response ⟨2, 9⟩),
+    let s := [Input.connectionEstablished 1 (fun _ => .error .closed), .send 1 ⟨⟨3, 0⟩, none⟩ .reject (.ok ()) (.ok 0),
+      .outboundSubstream 1 0 none, .responderWrites 0 ⟨2, 9⟩, .futureDone ⟨1, 0, 0⟩ (.response ⟨2, 9⟩),
       .connectionClosed 1].foldl step (init none)
     terminals s.log 0 = 1 ∧ s.log = [.responseReceived 1 0 ⟨2, 9⟩] := by decide
 
@@ -76,8 +76,8 @@ theorem request_located (m : Option Nat) (s : State) (h : Reach m s) (r : Rid) :
 /-- Non-vacuity (§8-k): three requests while the peer is being dialed are all queued, and all fail
 once the dial fails. -/
 example :
-    let s := [Input.send 1 ⟨3, 0⟩ .dial (.ok ()) (.error .noPeer), .send 1 ⟨4, 1⟩ .dial (.ok ()) (.error .noPeer),
-      .send 1 ⟨5, 2⟩ .dial (.ok ()) (.error .noPeer)].foldl step (init none)
+    let s := [Input.send 1 ⟨⟨3, 0⟩, none⟩ .dial (.ok ()) (.error .noPeer), .send 1 ⟨⟨4, 1⟩, none⟩ .dial (.ok ()) (.error .noPeer),
+      .send 1 ⟨⟨5, 2⟩, none⟩ .dial (.ok ()) (.error .noPeer)].foldl step (init none)
     (dialCount s 0, dialCount s 1, dialCount s 2) = (1, 1, 1) ∧
     (let s' := step s (.dialFailure 1); (terminals s'.log 0, terminals s'.log 1, terminals s'.log 2) = (1, 1, 1)) := by
   decide
@@ -96,10 +96,10 @@ theorem active_owned (m : Option Nat) (s : State) (h : Reach m s) :
 
 /-- Non-vacuity: two requests to a connected peer, one waiting for its substream, one in flight. -/
 example :
-    let s := [Input.connectionEstablished 1 (fun _ => .error .closed), .send 1 ⟨3, 0⟩ .reject (.ok ()) (.ok 0),
-      .send 1 ⟨4, 1⟩ .reject (.ok ()) (.ok 1), .outboundSubstream 1 0].foldl step (init none)
+    let s := [Input.connectionEstablished 1 (fun _ => .error .closed), .send 1 ⟨⟨3, 0⟩, none⟩ .reject (.ok ()) (.ok 0),
+      .send 1 ⟨⟨4, 1⟩, none⟩ .reject (.ok ()) (.ok 1), .outboundSubstream 1 0 none].foldl step (init none)
     (s.peers.map fun e => (e.1, e.2.active)) = [(1, [1, 0])] ∧
-    s.pendingOutbound = [(1, ⟨1, 1, ⟨4, 1⟩⟩)] ∧ s.pendingInbound = [⟨1, 0, 0⟩] := by decide
+    s.pendingOutbound = [(1, ⟨1, 1, ⟨⟨4, 1⟩, none⟩⟩)] ∧ s.pendingInbound = [⟨1, 0, 0⟩] := by decide
 
 /-- **Exactly one at quiescence.** In every reachable state in which the environment owes nothing
 (`Quiescent`: no pending dial, no pending substream open, no request future), every issued request
@@ -115,8 +115,8 @@ theorem exactly_one_at_quiescence (m : Option Nat) (s : State) (h : Reach m s) (
 
 /-- Non-vacuity: a quiescent state with one failed and one silently cancelled request. -/
 example :
-    let s := [Input.connectionEstablished 1 (fun _ => .error .closed), .send 1 ⟨3, 0⟩ .reject (.ok ()) (.ok 0),
-      .send 2 ⟨3, 1⟩ .reject (.ok ()) (.ok 1), .outboundSubstream 1 0, .cancel 0,
+    let s := [Input.connectionEstablished 1 (fun _ => .error .closed), .send 1 ⟨⟨3, 0⟩, none⟩ .reject (.ok ()) (.ok 0),
+      .send 2 ⟨⟨3, 1⟩, none⟩ .reject (.ok ()) (.ok 1), .outboundSubstream 1 0 none, .cancel 0,
       .futureDone ⟨1, 0, 0⟩ (.error .canceled)].foldl step (init none)
     s.pendingDials = [] ∧ s.pendingOutbound = [] ∧ s.pendingInbound = [] ∧
     issuedCount s 0 = 1 ∧ issuedCount s 1 = 1 ∧
@@ -126,28 +126,43 @@ example :
 * outbound: at most one substream was ever opened for `r` (`opened` records every successful
   `open_substream` with the request it was made for); a request future — which writes the request
   once — was started at most once, and only on a substream that was opened for exactly this request
-  as it was issued; substream ids are never shared between requests;
+  as it was issued; substream ids are never shared between requests; every started future writes
+  exactly one payload on its substream (`written`), namely the request's main payload, or its
+  fallback payload if the substream was negotiated with the request's fallback protocol;
 * inbound: `r` was handed to the user (`RequestReceived`) at most once, never while it is still
   being read, inbound ids never collide with outbound request ids, and the user is asked for an
   answer only to a request it has seen. -/
 theorem responder_sees_once (m : Option Nat) (s : State) (h : Reach m s) (r : Rid) :
     (openedCount s r ≤ 1 ∧ outCount s r + sentCount s r ≤ openedCount s r ∧
-     (∀ o ∈ s.sentOn, o ∈ s.opened ∧ o.2 ∈ s.issued) ∧ (s.opened.map Prod.fst).Nodup) ∧
+     (∀ o ∈ s.sentOn, o ∈ s.opened ∧ o.2 ∈ s.issued) ∧ (s.opened.map Prod.fst).Nodup ∧
+     s.written.map Prod.fst = s.sentOn.map Prod.fst ∧
+     (∀ w ∈ s.written, ∃ c fb, (w.1, c) ∈ s.sentOn ∧ w.2 = c.request.payloadFor fb)) ∧
     (receivedCount s.log r + inReadCount s r + issuedCount s r ≤ 1 ∧
      awaitCount s r ≤ receivedCount s.log r) := by
   have hs := reach_sub m s h
   have hb := reach_inb m s h
+  have hw := reach_wr m s h
   refine ⟨⟨reach_opened_le_one m s h r, hs.sentCnt r,
-    fun o ho => ⟨hs.sentSub o ho, hs.openedIssued o (hs.sentSub o ho)⟩, hs.openedNodup⟩, ?_, hb.await r⟩
+    fun o ho => ⟨hs.sentSub o ho, hs.openedIssued o (hs.sentSub o ho)⟩, hs.openedNodup, hw.keys, hw.ok⟩,
+    ?_, hb.await r⟩
   have := hb.once r
   omega
 
 /-- Non-vacuity: an outbound request written on its substream, an inbound request handed over. -/
 example :
-    let s := [Input.connectionEstablished 1 (fun _ => .error .closed), .send 1 ⟨3, 0⟩ .reject (.ok ()) (.ok 0),
-      .outboundSubstream 1 0, .inboundSubstream 1, .inboundRead ⟨1, 1⟩ (some ⟨5, 7⟩)].foldl step (init none)
-    openedCount s 0 = 1 ∧ sentCount s 0 = 1 ∧ s.sentOn = [(0, ⟨1, 0, ⟨3, 0⟩⟩)] ∧ s.opened = s.sentOn ∧
+    let s := [Input.connectionEstablished 1 (fun _ => .error .closed), .send 1 ⟨⟨3, 0⟩, none⟩ .reject (.ok ()) (.ok 0),
+      .outboundSubstream 1 0 none, .inboundSubstream 1, .inboundRead ⟨1, 1⟩ (some ⟨5, 7⟩)].foldl step (init none)
+    openedCount s 0 = 1 ∧ sentCount s 0 = 1 ∧ s.sentOn = [(0, ⟨1, 0, ⟨⟨3, 0⟩, none⟩⟩)] ∧ s.opened = s.sentOn ∧
     receivedCount s.log 1 = 1 ∧ awaitCount s 1 = 1 ∧ s.log = [.requestReceived 1 1 ⟨5, 7⟩] := by decide
+
+/-- Non-vacuity (fallback): the substream is negotiated with the request's fallback protocol 7, the
+future writes the fallback payload; negotiated with another fallback protocol, the main payload. -/
+example :
+    let s0 := [Input.connectionEstablished 1 (fun _ => .error .closed),
+      .send 1 ⟨⟨3, 0⟩, some (7, ⟨5, 1⟩)⟩ .reject (.ok ()) (.ok 0)].foldl step (init none)
+    (step s0 (.outboundSubstream 1 0 (some 7))).written = [(0, ⟨5, 1⟩)] ∧
+    (step s0 (.outboundSubstream 1 0 (some 8))).written = [(0, ⟨3, 0⟩)] ∧
+    (step s0 (.outboundSubstream 1 0 none)).written = [(0, ⟨3, 0⟩)] := by decide
 
 /-- **An inbound request is handed over exactly when it was read.** The completion of the read of
 an inbound request appends exactly one `RequestReceived` with the id and the bytes read if the read
@@ -182,12 +197,12 @@ theorem response_matches (m : Option Nat) (s : State) (h : Reach m s) (p : Peer)
 /-- Non-vacuity: two requests answered in the opposite order; each response is the one written on
 the substream of its own request. -/
 example :
-    let s := [Input.connectionEstablished 1 (fun _ => .error .closed), .send 1 ⟨3, 0⟩ .reject (.ok ()) (.ok 0),
-      .send 1 ⟨4, 1⟩ .reject (.ok ()) (.ok 1), .outboundSubstream 1 0, .outboundSubstream 1 1,
+    let s := [Input.connectionEstablished 1 (fun _ => .error .closed), .send 1 ⟨⟨3, 0⟩, none⟩ .reject (.ok ()) (.ok 0),
+      .send 1 ⟨⟨4, 1⟩, none⟩ .reject (.ok ()) (.ok 1), .outboundSubstream 1 0 none, .outboundSubstream 1 1 none,
       .responderWrites 1 ⟨2, 9⟩, .futureDone ⟨1, 1, 1⟩ (.response ⟨2, 9⟩),
       .responderWrites 0 ⟨6, 8⟩, .futureDone ⟨1, 0, 0⟩ (.response ⟨6, 8⟩)].foldl step (init none)
     s.log = [.responseReceived 1 1 ⟨2, 9⟩, .responseReceived 1 0 ⟨6, 8⟩] ∧
-    s.opened = [(0, ⟨1, 0, ⟨3, 0⟩⟩), (1, ⟨1, 1, ⟨4, 1⟩⟩)] ∧ s.sentOn = s.opened ∧
+    s.opened = [(0, ⟨1, 0, ⟨⟨3, 0⟩, none⟩⟩), (1, ⟨1, 1, ⟨⟨4, 1⟩, none⟩⟩)] ∧ s.sentOn = s.opened ∧
     s.wire = [(1, ⟨2, 9⟩), (0, ⟨6, 8⟩)] := by decide
 
 #print axioms inbound_bound
